@@ -186,9 +186,10 @@ def mk_sig(interp, ctx, side, shape, nfuncs=1, annotations=True, tracked=True):
             av = sym.NONEVAL
             ua = EmptyAnn
         # which of the signature's callables declare this parameter: the first always, the others symbolically
-        psrc = TList([funcs[0]])
+        mine = funcs[:2] if (nfuncs > 1 and not plist) else funcs[:1]      # (the first parameter is also declared by the second callable)
+        psrc = TList(list(mine))
         pdepths = SymDict()
-        pdepths.items_ = [(funcs[0], SymInt(depth_terms[0]))]
+        pdepths.items_ = [(f_, SymInt(depth_terms[j_])) for j_, f_ in enumerate(mine)]
         p = mk_param(interp, nm, kind, MV(has, dv), MV(ahas, av), ua, funcs[0], psrc, pdepths)
         p._d['_vf_tag'] = '%s%s' % (side, tag)
         plist.append(p)
@@ -248,6 +249,19 @@ def mk_sig(interp, ctx, side, shape, nfuncs=1, annotations=True, tracked=True):
     info.src = src
     info.depths = depths
     return info
+
+
+def strip_provenance(info):
+    """turn the symbolic input into a signature assembled by hand from parameters: no provenance at all (sources == {},
+    what UpgradedSignature(parameters) or an upgraded plain inspect.Signature carries)"""
+    empty = SymDict()
+    sym.mark_input(empty, 'sources map of %s (empty)' % info.side)
+    info.sig._d['sources'] = empty
+    info.src = empty
+    info.bare = True
+    for p in info.params:
+        p._d['sources'] = TList([])
+        p._d['source_depths'] = SymDict()
 
 
 def same_signature_term(a, b):
